@@ -365,8 +365,57 @@ pub fn run(args: &Args, rec: &mut Recorder) {
             rec.sample(Json::obj().with("module", Json::s(&clip(&a.write_to_string(), 400))));
         }
         check_cleanup(rec, &a, "generated module");
+        // modules are cleaned up independently of each other: in a file with two modules that use
+        // the same names, each module must come out exactly as if it were alone in its file
+        if case % 4 == 1 {
+            let cfg2 = ModCfg {
+                size: rng.urange(1, 5),
+                ref_pct: *rng.pick(&[30u32, 60, 90, 100]),
+                cycles: rng.coin(),
+                ..ModCfg::default()
+            };
+            let mut m2 = Gen::new(rng, cfg2).module("m2");
+            apply_knobs(rng, &mut m2, rec);
+            let single1 = a0.clone();
+            let single2 = wrap(m2.clone());
+            let mut both = a0.clone();
+            if rng.coin() {
+                both.project.module.push(m2);
+            } else {
+                // the order of the modules must not matter either
+                let m1 = both.project.module.pop().unwrap();
+                both.project.module.push(m2);
+                both.project.module.push(m1);
+            }
+            rec.eval();
+            rec.bump("two_module_files");
+            let mut c_both = both.clone();
+            let mut c1 = single1.clone();
+            let mut c2 = single2.clone();
+            let r = guarded(|| {
+                c_both.cleanup();
+                c1.cleanup();
+                c2.cleanup();
+            });
+            if let Err((sig, detail)) = r {
+                rec.violation(&sig, &detail, witness(&both, "two modules"));
+                return None;
+            }
+            for m in c_both.project.module.iter() {
+                let alone = if m.get_name() == "m2" { &c2.project.module[0] } else { &c1.project.module[0] };
+                if m != alone {
+                    rec.violation(
+                        "cleanup of a module depends on the other modules of the file",
+                        &format!("module {}: {}", m.get_name(), idempotence_diff(alone, m)),
+                        witness(&both, "two modules with the same names; each must be cleaned up as if it were alone"),
+                    );
+                    break;
+                }
+            }
+        }
         None
     });
+    rec.floor("two_module_files", 5);
     rec.floor("knob.unused_helpers", 5);
     rec.floor("knob.dangling_references", 5);
     rec.floor("knob.empty_groups_and_functions", 5);
